@@ -1,8 +1,15 @@
 #!/bin/bash
-# Offline setup: copy the lock file and warm the Kani build of the harness package.
+# Offline setup: copy the lock file and warm the Kani builds of the harness package for the three
+# hook configurations (base, h1, yield) so that the first check of each configuration is not a cold build.
 set -e
 cd "$(dirname "$0")/../kani"
 cp /repo/Cargo.lock Cargo.lock
-. ../tools/kenv.sh
-cargo kani --target-dir /verif/kani/target-base --only-codegen --no-assertion-reach-checks -Z stubbing > /tmp/verif-setup.log 2>&1 || { tail -50 /tmp/verif-setup.log; exit 1; }
+export CARGO_NET_OFFLINE=true ETHERCRAB_VERIF_DIR=/verif/kani/harness
+python3 ../tools/pregen.py C19 quick 0 > /tmp/verif-setup-pregen.log 2>&1 || true
+build() { # name, full RUSTFLAGS (must equal the runner's string exactly, no trailing blank)
+  RUSTFLAGS="$2" cargo kani --target-dir /verif/kani/target-$1 --only-codegen --no-assertion-reach-checks -Z stubbing > /tmp/verif-setup-$1.log 2>&1 || { tail -40 /tmp/verif-setup-$1.log; exit 1; }
+}
+build base "--cfg ethercrab_verif"
+build h1 "--cfg ethercrab_verif --cfg ethercrab_verif_h1"
+build yield '--cfg ethercrab_verif --cfg ethercrab_verif_yield="on"'
 echo setup ok
